@@ -361,7 +361,52 @@ def r_typestate(ctx, model):
     ctx.floor("steps of Calculator.__init__", len(steps), 10)
 
 
+def r_symmetry_step(ctx, model):
+    """the crystal-system filling is applied whenever a non-triclinic system is configured - whatever the table tabulates
+    (a few components, or all 21 with scatter) - and never otherwise; it receives the static table and the symmetry settings"""
+    from ..facts import KEYS21
+    from ..sym import RaisedV
+    ref = f"{CALC}._apply_elastic_constants_symmetry"
+    f = model.func(ref)
+    w = model.where(ref, f)
+    systems = [None, "triclinic", "cubic", "hexagonal", "monoclinic", "orthorhombic", "tetragonal6", "tetragonal7", "trigonal6", "trigonal7"]
+    shapes = {"three components": ["c11", "c12", "c44"], "nine components": ["c11", "c22", "c33", "c12", "c13", "c23", "c44", "c55", "c66"], "all 21 components": list(KEYS21)}
+    bad = []
+    n = 0
+    for system in systems:
+        for shape, keys in shapes.items():
+            for nvol in (1, 3):
+                n += 1
+                calls = []
+                vols = Tup([Obj("cij.io.traditional.elast_dat:ElastVolumeData", {
+                    "volume": sp.Symbol(f"VOL{i}", positive=True),
+                    "static_elastic_modulus": DictV({KeyObj(k): sp.Symbol(f"CST{i}_{k[1:]}", real=True) for k in keys})}) for i in range(nvol)], "list")
+                elast = Obj("cij.io.traditional.elast_dat:ElastData", {"volumes": vols, "nv": sp.Integer(nvol), "cellmass": sp.Symbol("CELLM", positive=True),
+                                                                       "vref": sp.Symbol("VREF", positive=True), "lattice_parameters": Tup([], "list")})
+                symm = DictV({"system": system} if system is not None else {})
+                calc = Obj(CALC, {"elast_data": elast, "config": DictV({"elast": DictV({"settings": DictV({"symmetry": symm})})})})
+                intr = {"cij.io.traditional.elast_dat:apply_symetry_on_elast_data": lambda ev, a, k: calls.append((list(a), k.all())) or None,
+                        "cij.c_": c_intrinsic}
+                ev = Ev(model, {("global", "cij.util:c_"): LibV("cij.c_")}, intr, ctx=ctx)
+                try:
+                    ev.call_def(f, model.mods["cij.core.calculator"], ref, [calc], {})
+                except RaisedV as e:
+                    bad.append(f"system {system}, {shape}, {nvol} volume(s): raises {e.exc_name}")
+                    continue
+                want = system not in (None, "triclinic")
+                okc = (len(calls) == 1 and len(calls[0][0]) >= 2 and calls[0][0][0] is elast and calls[0][0][1] is symm) if want else not calls
+                if not okc:
+                    bad.append(f"system {system}, {shape}, {nvol} volume(s): " + (f"filling called {len(calls)} time(s)" if want else "filling applied"))
+    ctx.check(not bad, f"symmetry filling applied iff a non-triclinic system is configured ({n} scenarios: 10 systems x table shapes x volume counts)", w,
+              expected="apply_symetry_on_elast_data(self.elast_data, <symmetry settings>) exactly once for a non-triclinic system; never otherwise",
+              found="; ".join(bad[:4]) or f"{n} scenarios as required",
+              explanation="the crystal-system filling is skipped (or applied) depending on what the static table happens to tabulate: with a "
+                          "system requested, a complete table with scatter is no longer projected onto the symmetric tensor, "
+                          "symmetry-forbidden entries are not dropped", key="symmetry.step")
+
+
 RULES = [
+    ("R05.6", "crystal-system filling applied first for every configured system and table shape", r_symmetry_step),
     ("R05.1-4", "total = static fit (GPa -> au, V*c cubic in Eulerian strain, shared reference) + like-named phonon store; task-list protocol; provenance", r_sum),
     ("R05.5", "axial strains: constant without lattice block; difference-over-sum of fitted axis lengths, row-normalised", r_axial),
     ("R05.7", "static pressure = -grad(fit of input energies)/grad(V)", r_pstatic),
